@@ -47,22 +47,17 @@ Definition erase_ok (H W : Z) (p : rect) : Prop :=
 Definition erase_okb (H W : Z) (p : rect) : bool :=
   let '(_, _, h, w) := p in in_boundsb H W p && (h <? H) && (w <? W).
 
-(* contract of the spec-augment oracle values (float32 results as exact fractions, denominators > 0):
-   value = fl(u1 * P) with u1 in [0,1);  y = fl(size - value);  minv = fl(u2 * y) with u2 in [0,1) *)
-Definition specaug_contract (size P : Z) (value y minv : qz) : Prop :=
-  0 < snd value /\ 0 < snd y /\ 0 < snd minv /\
-  0 <= fst value /\ fst value <= P * snd value /\
-  (size * snd value - fst value - snd value) * snd y < fst y * snd value /\
-  fst y * snd value < (size * snd value - fst value + snd value) * snd y /\
-  ((0 <= fst minv /\ fst minv * snd y <= fst y * snd minv) \/
-   (fst minv <= 0 /\ fst y * snd minv <= fst minv * snd y)).
-Definition specaug_contractb (size P : Z) (value y minv : qz) : bool :=
-  (0 <? snd value) && (0 <? snd y) && (0 <? snd minv) &&
-  (0 <=? fst value) && (fst value <=? P * snd value) &&
-  ((size * snd value - fst value - snd value) * snd y <? fst y * snd value) &&
-  (fst y * snd value <? (size * snd value - fst value + snd value) * snd y) &&
-  (((0 <=? fst minv) && (fst minv * snd y <=? fst y * snd minv)) ||
-   ((fst minv <=? 0) && (fst y * snd minv <=? fst minv * snd y))).
+(* contract of the spec-augment oracle values (the float32 results as exact rationals):
+   value = fl(u1 * P) with u1 in [0,1);  y = fl(size - value) (off by less than 1);
+   minv = fl(u2 * y) with u2 in [0,1), i.e. between 0 and y *)
+Definition specaug_contract (size P : Z) (value y minv : Q) : Prop :=
+  (0 <= value /\ value <= inject_Z P /\
+   inject_Z size - value - 1 < y /\ y < inject_Z size - value + 1 /\
+   ((0 <= minv /\ minv <= y) \/ (y <= minv /\ minv <= 0)))%Q.
+Definition specaug_contractb (size P : Z) (value y minv : Q) : bool :=
+  Qle_bool 0 value && Qle_bool value (inject_Z P) &&
+  negb (Qle_bool y (inject_Z size - value - 1)) && negb (Qle_bool (inject_Z size - value + 1) y) &&
+  ((Qle_bool 0 minv && Qle_bool minv y) || (Qle_bool y minv && Qle_bool minv 0)).
 
 (* image and mask went through the same geometry *)
 Definition same_geometry (x seg : gimg) : Prop :=
@@ -106,6 +101,11 @@ Definition sop_wf (o : sop) : Prop :=
   | SRandResize nh nw | SResize nh nw => 0 <= nh /\ 0 <= nw
   | SFlip _ | SOther => True
   end.
+
+(* every pixel an image shows comes from inside the H0 x W0 input it was derived from *)
+Definition sources_inside (H0 W0 : Z) (im : gimg) : Prop :=
+  forall y x, inside (gh im) (gw im) y x = true ->
+    match gsrc im y x with Some (a, b) => inside H0 W0 a b = true | None => True end.
 
 (* permutation of 0..L-1 as numpy.random.Generator.permutation(L) returns it *)
 Definition is_perm (perm : list Z) : Prop :=
